@@ -1649,8 +1649,12 @@ func (e *executor) executeRowBSIGroupShard(ctx context.Context, index string, c 
 		}
 
 		// LT[E] and GT[E] should return all not-null if selected range fully encompasses valid bsiGroup range.
+		// The stored values are bounded by the bit depth as well as by Min/Max; a
+		// predicate beyond either bound selects every not-null column.
 		if (cond.Op == pql.LT && value > bsig.Max) || (cond.Op == pql.LTE && value >= bsig.Max) ||
-			(cond.Op == pql.GT && value < bsig.Min) || (cond.Op == pql.GTE && value <= bsig.Min) {
+			(cond.Op == pql.GT && value < bsig.Min) || (cond.Op == pql.GTE && value <= bsig.Min) ||
+			(cond.Op == pql.LT && value > bsig.bitDepthMax()) || (cond.Op == pql.LTE && value >= bsig.bitDepthMax()) ||
+			(cond.Op == pql.GT && value < bsig.bitDepthMin()) || (cond.Op == pql.GTE && value <= bsig.bitDepthMin()) {
 			return frag.notNull()
 		}
 
